@@ -44,7 +44,8 @@ Section Params.
   Definition init := {| pdic := []; pval := repeat 0 nP; has := false |}.
 
   Inductive op :=
-  | SetList  (vs : list Z)              (* list / tuple / ndarray of numbers, declaration order *)
+  | SetList  (vs : list Z)              (* list / tuple / 1-D ndarray of numbers, declaration order *)
+  | SetArr   (rows : nat) (vs : list Z) (* 2-D ndarray: len() = rows, .size = length vs (row-major ravel) *)
   | SetPairs (l : list (nat * Z))       (* list of (name, value) tuples *)
   | SetDict  (l : list (nat * Z)).      (* dict keyed by name or symbol; partial update *)
 
@@ -61,6 +62,10 @@ Section Params.
     match o with
     | SetList vs =>
         if Nat.eqb (length vs) nP
+        then let d := combine (map KStr decl) vs in ({| pdic := d; pval := replay d; has := true |}, true)
+        else (s, false)
+    | SetArr rows vs =>
+        if Nat.eqb rows nP && Nat.eqb (length vs) nP
         then let d := combine (map KStr decl) vs in ({| pdic := d; pval := replay d; has := true |}, true)
         else (s, false)
     | SetPairs l =>
@@ -84,7 +89,7 @@ Section Params.
   Definition spec_step (sp : spec) (o : op) (ok : bool) : spec :=
     if ok then
       match o with
-      | SetList vs => fun p => match index decl p with Some i => nth i vs 0 | None => sp p end
+      | SetList vs | SetArr _ vs => fun p => match index decl p with Some i => nth i vs 0 | None => sp p end
       | SetPairs l => fold_left (fun f pv => upd f (fst pv) (snd pv)) l (fun _ => 0)
       | SetDict l => fold_left (fun f pv => upd f (fst pv) (snd pv)) l sp
       end
